@@ -11,6 +11,7 @@ import AnyTLS.Drv.Hb
 import AnyTLS.Drv.Socks
 import AnyTLS.Drv.Http
 import AnyTLS.Drv.Cert
+import AnyTLS.Drv.Sched
 
 open AnyTLS.Drv
 
@@ -24,6 +25,7 @@ structure DrvState where
   cert : Option MCert := none
   hxV : Option MNode := none
   hxW : Option MNode := none
+  sched : Option MSched := none
 
 def sessLine (st : DrvState) (toks : List String) : DrvState × String :=
   match toks with
@@ -134,6 +136,7 @@ def dispatch (st : DrvState) (line : String) : DrvState × String :=
   | "http" :: rest => (st, httpOp rest)
   | "hx" :: rest => hxLine st rest
   | "cert" :: rest => let (m, o) := certOp st.cert rest; ({ st with cert := m }, o)
+  | "sched" :: rest => let (m, o) := schedOp st.sched rest; ({ st with sched := m }, o)
   | "e2e" :: rest => (st, e2eLine rest)
   | "dest" :: rest => (st, destOp rest)
   | "dns" :: rest => let (c, o) := dnsOp st.dns rest; ({ st with dns := c }, o)
